@@ -153,6 +153,8 @@ def frame_jobs(bindir, prop, tier, seed, faults):
     jobs += shards(bindir, "frame_driver", prop + "-spy", seed, 8, base + ["--mode", "spy", "--cases", str(spy)], 3000)
     if not faults:
         jobs += shards(bindir, "frame_driver", prop + "-delegate", seed, 8, base + ["--mode", "delegate", "--cases", str(dele)], 3000)
+    # W3/W4: the buffered UDP / Unix sinks on real sockets, observed at the interposed sendto
+    jobs += shards(bindir, "sock_driver", prop + "-sockets", seed, 4, ["--property", prop, "--mode", "buffered", "--cases", "150" if tier == QUICK else "5000"], 3000)
     return jobs
 
 
@@ -387,6 +389,7 @@ def tsan_job(name, prop, binname, prog_args, timeout, runs=1):
 
     j = Job(name, argv, timeout, env=env, parser=parse)
     j.needs_tsan = True
+    j.tsan_bin = binname
     return j
 
 
@@ -400,4 +403,90 @@ def _c18(bindir, tier, seed):
     for k in range(4):
         jobs.append(miri_job("C18-miri-holder-%d" % k, "C18", "holder_stress", [["4", "2", "2", "3"], ["3", "3", "2", "2"], ["3", "2", "3", "4"], ["6", "1", "3", "3"]][k], 64, seed + 17 * k, 7200))
     jobs.append(tsan_job("C18-tsan-holder", "C18", "holder_stress", ["2000", "2", "3", "6"], 3600, runs=10))
+    return jobs
+
+
+# ---- C17 ---------------------------------------------------------------------------------------------------
+meta("C17", level="exploration",
+     rule="one fresh process per global-client configuration (prefix class x default tags x default container x sink behaviour accept/refuse/alternate x handler present x UNSET); inside, "
+          "all 7 macros x all 22 accepted value types x tag arities 0,1,2,3,6 with run-time random strings; every argument is a block expression bumping its own counter. Oracle: "
+          "differential against the explicit chain get_global_default().unwrap().<kind>_with_tags(k, v).with_tag(..)...send() run back to back on the same client (same line, one emit each, "
+          "same handler traffic), the reference formatter of C01 with the client's defaults, every argument evaluated exactly once, failures only in the handler log (same error), panic iff "
+          "no client set, a second set_global_default is ignored. distinct = (macro, value type, tag arity, sink behaviour, handler, set/unset)",
+     assumptions=["tag arities above 6 are not driven (the macro repetition is uniform)", "the global can be set once per process, hence one process per configuration"],
+     min_evaluations=2000, must_observe={"macro_vs_chain_pairs_equal": 1500, "argument_evaluations_checked": 5000, "unset_macros_panicked": 100, "handler_deliveries_checked": 100, "second_set_ignored_checks": 4})
+
+
+@plan("C17")
+def _c17(bindir, tier, seed):
+    n = 24 if tier == QUICK else 600
+    rounds = "2" if tier == QUICK else "6"
+    jobs = []
+    for i in range(n):
+        argv = [B(bindir, "macro_driver"), "--cfg-seed", str(seed * 100003 + i), "--rounds", rounds, "--out", "{out}"]
+        argv += ["--sink", ["accept", "refuse", "alternate"][i % 3]]
+        if i % 4 == 3:
+            argv += ["--no-handler"]
+        if i % 6 == 5:
+            argv += ["--unset"]
+        jobs.append(Job("C17-macro-%d" % i, argv, 600))
+    return jobs
+
+
+# ---- C12 ---------------------------------------------------------------------------------------------------
+meta("C12", level="exploration",
+     rule="T in {2,3,4,8,16,32} threads released by a barrier emit in tight loops through ONE shared Arc<StatsdClient> into a buffered sink (capacities 16/24/64/512(default)/1432), "
+          "metric keys carry (thread, sequence) and random padding (some oversize => bypass), up to 2 threads also flush at random. Sinks: BufferedSpyMetricSink (channel), "
+          "BufferedUnixMetricSink with a draining receiver, BufferedUdpMetricSink observed at the interposed sendto. Oracle over the combined datagram stream: every datagram is whole "
+          "acknowledged metrics each followed by \\n and <= capacity, or one oversize metric alone without terminator (F1); every Ok-acknowledged metric appears exactly once (F2); each "
+          "thread's buffered metrics appear in program order. A run in which no datagram mixes two threads' lines is trivial. distinct = (sink, T, capacity, thread-id trigram in stream order)",
+     assumptions=["schedules are sampled from the OS scheduler under stress (no controlled scheduler inside the sink's mutex: nothing interleaves there)",
+                  "loop-back UDP may drop at the receiver under load, therefore the interposer log (payload copies at sendto) is taken as the wire for UDP"],
+     min_evaluations=20, must_observe={"datagrams_mixing_lines_of_several_threads": 1000, "thread_switches_in_stream": 5000, "acknowledged_metrics_checked": 100000, "runs_spy": 5, "runs_unix": 3, "runs_udp": 3})
+
+
+@plan("C12")
+def _c12(bindir, tier, seed):
+    q = tier == QUICK
+    jobs = shards(bindir, "conc_driver", "C12-spy", seed, 8, ["--sink", "spy", "--cases", "5" if q else "150"], 3000)
+    jobs += shards(bindir, "conc_driver", "C12-unix", seed, 4, ["--sink", "unix", "--cases", "3" if q else "100"], 3000)
+    jobs += shards(bindir, "conc_driver", "C12-udp", seed, 4, ["--sink", "udp", "--cases", "3" if q else "100"], 3000)
+    return jobs
+
+
+# ---- C13 / C14: socket sinks at the syscall boundary ----------------------------------------------------------
+SOCK_ASSUME = ["loop-back UDP and Unix datagram sockets of this kernel; errno values that were scripted at the interposed sendto (EAGAIN, ENOBUFS, ECONNREFUSED, EPERM, ENETUNREACH, EINTR) or provoked from the kernel (EMSGSIZE for 65508-byte UDP payloads, EAGAIN on a non-blocking Unix socket with a full receive queue)",
+               "the sendto interposer (a #[no_mangle] definition in the driver binary that std links against) records every call of the process; a scripted failure never enters the kernel (all-or-nothing datagram semantics)",
+               "other platforms, real networks and IPv6 are not exercised"]
+meta("C13", level="exploration",
+     rule="unbuffered UdpMetricSink / UnixMetricSink, blocking and non-blocking: random UTF-8 metrics (multi-byte, embedded delimiters/NUL/newlines, lengths 0, 1, 1472, 1473, 65507, 65508, "
+          "8-60 KB) - per emit exactly one sendto, payload == the metric's bytes, destination sockaddr == the constructed address/path (first of several resolved addresses; empty list => "
+          "InvalidInput), result == bytes sent or the socket's errno (scripted or kernel-made), the datagram received on the addressed socket equals the metric and a decoy socket stays "
+          "empty; buffered UDP/Unix sinks (capacities 0,1,8,40,100,512(default),1432,9000): the framing model F1 with a single newline terminator and 'what remains is sent on flush/drop' "
+          "over the interposer log. distinct = (sink, blocking mode, length class, result) and outcome-window signatures for the buffered sinks",
+     assumptions=SOCK_ASSUME, min_evaluations=50,
+     must_observe={"unbuffered_emits_checked": 1000, "datagrams_received_and_compared": 500, "scripted_socket_errors_checked": 50, "kernel_socket_errors_checked": 5, "sendto_attempts_observed": 1000, "empty_address_list_rejected": 3})
+meta("C14", level="exploration",
+     rule="all four socket sinks; at every quiescent point (all emitting threads joined, and behind a QueuingMetricSink the queue drained) stats() is compared with totals computed from the "
+          "interposer log restricted to the sink's socket: packets_sent + packets_dropped == send attempts, packets/bytes sent == accepted datagrams and their sizes, packets/bytes dropped == "
+          "refused ones; for the unbuffered sinks also == counts/lengths of Ok/Err emits; identical figures through the queuing wrapper. Faults: EVERY accept/refuse pattern of length <= L "
+          "(L=6 quick, 10 thorough) per sink kind, random per-call failures (5-70%) with 1-16 concurrently emitting threads, kernel EMSGSIZE. distinct = (sink, #threads, through queue, refusal class, pattern)",
+     assumptions=SOCK_ASSUME, exhaustive_scope="all accept/refuse patterns of the underlying sendto up to the stated length, per sink kind, single emitter (the concurrent part is sampled)",
+     min_evaluations=100,
+     must_observe={"quiescent_stat_comparisons": 100, "refused_datagrams_observed": 500, "comparisons_with_concurrent_emitters": 20, "comparisons_through_queuing_sink": 20, "kernel_refusals_observed": 5})
+
+
+@plan("C13")
+def _c13(bindir, tier, seed):
+    q = tier == QUICK
+    jobs = shards(bindir, "sock_driver", "C13-unbuffered", seed, 8, ["--property", "C13", "--mode", "unbuffered", "--cases", "40" if q else "2500"], 3000)
+    jobs += shards(bindir, "sock_driver", "C13-buffered", seed, 8, ["--property", "C13", "--mode", "buffered", "--cases", "150" if q else "8000"], 3000)
+    return jobs
+
+
+@plan("C14")
+def _c14(bindir, tier, seed):
+    q = tier == QUICK
+    jobs = shards(bindir, "sock_driver", "C14-enum", seed, 8, ["--property", "C14", "--mode", "stats-enum", "--maxlen", "6" if q else "10"], 3000)
+    jobs += shards(bindir, "sock_driver", "C14-stats", seed, 8, ["--property", "C14", "--mode", "stats", "--cases", "25" if q else "1500"], 3000)
     return jobs
